@@ -95,6 +95,41 @@ CLAIMED = {
             "Trusted: Lean kernel; Model/Expr.lean is a hand model of TransactionEvaluator tied by differential runs (type-directed random stream, all ≤1-operator expressions × boundary transactions here; the exhaustive "
             "operator×type table in C08); regex case-insensitivity and non-ASCII case mapping are oracle laws exercised on CPython; whole-tree name-case invariance is proved per node (name_case, attr_case), not as one induction.",
             "DESIGN.md §5 C04"),
+    'C10': ("Lean 4 theorems over a model of ExpressionEvaluator + classify_by_sections (reusing the CPython operator model) + differential correspondence and membership oracle",
+            "Proof: member_general, members_eq_filter, member_iff (m listed in v ⇔ not excluded ∧ v's filter true on m's own payments), views_independent (add/remove/reorder under distinct names; "
+            "equal_names_merge shows the hypothesis is needed), view_total, no_exception_escapes / run_continues / error_excludes (with the D8 repair), months_def, total_def, cv_def, cv_mean_zero; "
+            "d8_witness is the kernel-checked counterexample for the code before the repair.",
+            "Trusted: Lean kernel; Model/View.lean is a hand model tied by differential runs of evaluate_filter / classify_by_sections; statistics.stdev, float **, **0.5, round, float %, str.lower are oracle "
+            "parameters; total_def/cv_def are over exact int amounts; `by` bucketing and aggregates are tied by correspondence + bucket oracle, not by a Spec theorem. Observations (equal view names merge; a view "
+            "variable written with an upper-case letter is unreachable; several of the reference's own example filters are ill-typed) are recorded in notes/C10_notes.md.",
+            "DESIGN.md §5 C10, notes/C10_notes.md"),
+    'C14': ("Lean 4 theorems: Python string-literal unescape∘escape = id, modifier expression ≡ modifier check, structure of the generated file, composed with C01/C02's list theorems + both-pipelines oracle on the real code",
+            "Proof: literal_roundtrip (every one-line pattern survives escape → literal decoding), modifier_equiv (every modifier form and combination), per_rule_agree, migration_preserves (merchant/category/subcategory "
+            "and tag set equal for every list of CsvRuleOk tuples and every transaction with an amount, under the named oracle laws H_upper/H_empty tested on CPython each run), structure_partial; kernel-checked "
+            "counterexamples for the unrepaired converter (literal_*_pinned, modifier_eq_pinned_counterexample, relative_dropped, relative_breaks_file, empty_row_breaks_file).",
+            "PARTIAL: structure_partial assumes trimmed match/tags lines; no single theorem links Impl.classifyMigrated to the engine (tied by correspondence); parse_pattern_with_modifiers is not modelled. "
+            "Known findings D14c (relative dates inexpressible), D14d (pattern that also evaluates as an expression), D14f (untrimmed names), D14g (tags with , ( )), D14h (ß/(?-i:)) are listed with narrow classifiers; "
+            "D14a/b/e repaired by fix: commits.",
+            "DESIGN.md §5 C14, notes/C14_notes.md"),
+    'C15': ("Lean 4 safety theorems over a file-system event machine for every budget shape × crash prefix × in-flight state and every single fault (exhaustive decide +kernel over the shape space, symbolic contents) + fault-injection correspondence on the real code",
+            "Proof: csv_migration_safe / csv_migration_fault_safe (tally up --migrate), init_migration_safe / _fault_safe, layout_migration_safe / _fault_safe: after ANY number k of file-system events, with the "
+            "in-flight file empty/half/full, or an OSError at any single event, no user content is lost, the budget classifies with the user's rules or does so after re-running, and is never on an empty rule set "
+            "while rules exist; extracted_order_is_modelled ties the step order to the source (regenerated by fs_steps translator); D15a–e counterexamples for the orders before the repairs.",
+            "PARTIAL: process crashes between Python-level FS calls and single-call faults are covered; torn writes below one write(), fsync/durability and power-loss reordering are NOT modelled; contents are one opaque "
+            "symbol per user file (parametricity not mechanised); shapes with a pre-existing ./tally/<dir> and a second fault during re-run are outside. Defects D15a–e repaired by fix: commits.",
+            "DESIGN.md §5 C15, notes/C15_notes.md"),
+    'C19': ("Lean 4 theorems over a model of suggest_pattern / suggest_merchant_name / the suggested rule text and the rules parser + discover→load→match oracle on the real code",
+            "Proof: suggestion_loads (the proposed block parses to exactly one rule), literal_of_suggestion, Fixed.pattern_is_escaped_words, Fixed.cleaned_is_a_piece, Fixed.suggestion_matches(_keep) (the upper-cased "
+            "description contains a member of the language of the emitted regex, every description), suggestion_matches_partial for the contains branch; kernel-checked counterexamples for the code before the repair.",
+            "PARTIAL: that CPython's re decides the emitted regex's language is tied by correspondence, not proved; 'the Unknown list strictly shrinks' is decided by the implementation oracle; NameOk is a hypothesis; "
+            "Greek final sigma in title() and NUL are outside the model. Defect D19 repaired by a fix: commit.",
+            "DESIGN.md §5 C19, notes/C19_notes.md"),
+    'C20': ("Lean 4 frame theorems over the file-system event machine + audit-hook write trace and content hashes for generated budgets × command sequences",
+            "Proof: readonly_frame / up_frame (every path outside the output location keeps its node), migration_only_on_request, init_frame (every existing file kept; settings only appended; CSV may move to a free "
+            "backup name), init_creates_only_missing; D15c_init_clobbers_bak is the counterexample for the code before the repair.",
+            "PARTIAL: the model covers the FS calls of the commands' own code paths (extracted by the fs_steps translator for the migrations, hand-modelled for up/init); explain/discover/diag/inspect are covered by "
+            "the implementation monitor (audit trace + hashes), not by separate models; OS durability is out of scope; interactive answers are not exercised.",
+            "DESIGN.md §5 C20, notes/C20_notes.md"),
 }
 
 PENDING_REASON = "not claimed yet: model/theorems for this property are still being built (see DESIGN.md §7 build order); no check is registered until it is sound"
